@@ -205,6 +205,10 @@ M("C02", "intervalrange-start-bound", MHI, "start_position = random.randint(0, s
 M("C02", "floatrange-validate-strict", MHF, "    def validate(self, v) -> bool:\n        return self.min <= v <= self.max", "    def validate(self, v) -> bool:\n        return self.min < v <= self.max", "C02.R1")
 M("C02", "listsize-generate-extra", MHL, "        assert len(li) == size\n        assert self.min <= len(li) <= self.max\n", "        li.append(rec(inner_type))\n", "C02.R1")
 M("C02", "stringsize-validate-strict", MHS, "return self.min <= len(v) <= self.max and all(x in self.options for x in v)", "return self.min <= len(v) < self.max and all(x in self.options for x in v)", "C02.R1")
+M("C02", "stringsize-guard-clause-strict", MHS, "return self.min <= len(v) <= self.max and all(x in self.options for x in v)",
+  "if len(v) < self.min or len(v) >= self.max:\n            return False\n        return all(x in self.options for x in v)", "C02.R1")
+M("C02", "twin-stringsize-guard-clause", MHS, "return self.min <= len(v) <= self.max and all(x in self.options for x in v)",
+  "if len(v) < self.min or len(v) > self.max:\n            return False\n        return all(x in self.options for x in v)", "", expect="silent")
 M("C02", "stringsize-other-alphabet", MHS, 's = "".join(random.choice(self.options) for _ in range(size))', 's = "".join(random.choice(string.printable) for _ in range(size))', "C02.R1")
 M("C02", "varrange-choice-other", "geneticengine/grammar/metahandlers/vars.py", "        return random.choice(self.options)", "        return random.choice(sorted(dependent_values))", "C02.R1")
 M("C02", "create-node-skips-generate", INI, "        v = metahandler.generate(global_context.random, global_context.grammar, base_type, recurse, dependent_vals)", "        v = recurse(base_type)", "C02.R2")
